@@ -129,3 +129,42 @@ Lemma bind_many_mono' : forall args kv m s m', kvmono kv -> bind_many args kv m 
 Proof.
   intros args. apply bind_many_mono. apply Forall_forall. intros a _. exact (proj1 (proj2 focus_mono_all) a).
 Qed.
+
+(* ---------- the named continuations are monotone ---------- *)
+Lemma kmono_opR : forall b1 o k, kmono k -> kmono (opR_k b1 o k).
+Proof. intros b1 o k K b2 mb s m' H. unfold opR_k in H. simpl in H. rinv H. okinv H. apply K in E. lia. Qed.
+Lemma kmono_opL : forall t o k, kmono k -> kmono (opL_k t o k).
+Proof. intros t o k K b1 ma s m' H. unfold opL_k in H. eapply bind_term_mono; [|exact H]. apply kmono_opR; exact K. Qed.
+Lemma kmono_cutopR : forall b1 o ty q, kmono (cutopR_k b1 o ty q).
+Proof. intros b1 o ty q b2 mb s m' H. unfold cutopR_k in H. rinv H. okinv H. eapply focus_term_mono; eauto. Qed.
+Lemma kmono_cutopL : forall t o ty q, kmono (cutopL_k t o ty q).
+Proof. intros t o ty q b1 ma s m' H. unfold cutopL_k in H. eapply bind_term_mono; [|exact H]. apply kmono_cutopR. Qed.
+Lemma kmono_if2 : forall so b1 t e, kmono (if2_k so b1 t e).
+Proof.
+  intros so b1 t e b2 mb s m' H. unfold if2_k in H. rinv H. rinv H. okinv H.
+  apply focus_stmt_mono in E. apply focus_stmt_mono in E0. lia.
+Qed.
+Lemma kmono_if1 : forall so b t e, kmono (if1_k so b t e).
+Proof.
+  intros so b t e b1 ma s m' H. unfold if1_k in H. destruct b as [b0|].
+  - eapply bind_term_mono; [|exact H]. apply kmono_if2.
+  - rinv H. rinv H. okinv H. apply focus_stmt_mono in E. apply focus_stmt_mono in E0. lia.
+Qed.
+Lemma kmono_print : forall nl next, kmono (print_k nl next).
+Proof. intros nl next b1 ma s m' H. unfold print_k in H. rinv H. okinv H. eapply focus_stmt_mono; eauto. Qed.
+Lemma kmono_exit : kmono exit_k.
+Proof. intros b1 ma s m' H. unfold exit_k in H. okinv H. lia. Qed.
+Lemma kvmono_cons : forall b kv, kvmono kv -> kvmono (cons_kv b kv).
+Proof. intros b kv K bs m s m' H. unfold cons_kv in H. eapply K; eauto. Qed.
+Lemma kmono_many : forall r kv, kvmono kv -> kmono (many_k r kv).
+Proof. intros r kv K b m s m' H. unfold many_k in H. eapply bind_many_mono'; [|exact H]. apply kvmono_cons; exact K. Qed.
+Lemma kvmono_xtorP : forall c' x ty k, kmono k -> kvmono (xtorP_kv c' x ty k).
+Proof. intros c' x ty k K bs m s m' H. unfold xtorP_kv in H. simpl in H. rinv H. okinv H. apply K in E. lia. Qed.
+Lemma kvmono_xtorK : forall c' x ty k, kmono k -> kvmono (xtorK_kv c' x ty k).
+Proof. intros c' x ty k K bs m s m' H. unfold xtorK_kv in H. simpl in H. rinv H. okinv H. apply K in E. lia. Qed.
+Lemma kvmono_cutP : forall pc px ty q, kvmono (cutP_kv pc px ty q).
+Proof. intros pc px ty q bs m s m' H. unfold cutP_kv in H. rinv H. okinv H. eapply focus_term_mono; eauto. Qed.
+Lemma kvmono_cutK : forall qc qx ty p, kvmono (cutK_kv qc qx ty p).
+Proof. intros qc qx ty p bs m s m' H. unfold cutK_kv in H. rinv H. okinv H. eapply focus_term_mono; eauto. Qed.
+Lemma kvmono_call : forall f, kvmono (call_kv f).
+Proof. intros f bs m s m' H. unfold call_kv in H. okinv H. lia. Qed.
